@@ -101,3 +101,71 @@ func EmptyIfChain(x int) {
 	} else if x == 4 {
 	}
 }
+
+// empty bodies in every position a loop-shaped or branch-shaped checker looks at
+func EmptyInLoops(xs []int, c bool, ch chan int) {
+	for {
+		if c {
+		}
+	}
+	for range xs {
+		if c {
+		}
+	}
+	for i := 0; i < 1; i++ {
+		if c {
+		} else {
+		}
+	}
+	for {
+		switch {
+		}
+	}
+	for {
+		select {}
+	}
+	for {
+		{
+		}
+	}
+	for {
+		if c {
+			continue
+		}
+	}
+	for range xs {
+		for {
+		}
+	}
+	for {
+		if c {
+			for {
+			}
+		}
+	}
+	if c {
+		for {
+		}
+	}
+	switch {
+	case c:
+		for {
+			if c {
+			}
+		}
+	default:
+	}
+	select {
+	case <-ch:
+		for {
+			if c {
+			}
+		}
+	}
+	func() {
+		for {
+			if c {
+			}
+		}
+	}()
+}
